@@ -31,18 +31,18 @@ SPEC = dict(
     jobs=[
         job('exh-c', 'h_xml', 'exh-c', cases=-1, scale={Q: 4, T: 5}, procs=16, probes=PROBES),
         job('exh-t', 'h_xml', 'exh-t', cases=-1, scale={Q: 5, T: 6}, procs=16),
-        job('gen', 'h_xml', 'gen', cases={Q: 1600, T: 16000}, procs=16),
-        job('mut', 'h_xml', 'mut', cases={Q: 40000, T: 600000}, procs=16),
+        job('gen', 'h_xml', 'gen', cases={Q: 1600, T: 32000}, procs=16),
+        job('mut', 'h_xml', 'mut', cases={Q: 40000, T: 1000000}, procs=16),
         job('deep', 'h_xml', 'deep', cases={Q: 48, T: 480}, procs=16),
-        job('roundtrip', 'h_xml', 'roundtrip', cases={Q: 8000, T: 120000}, procs=16),
-        job('variant', 'h_xml', 'variant', cases={Q: 8000, T: 120000}, procs=16),
+        job('roundtrip', 'h_xml', 'roundtrip', cases={Q: 8000, T: 200000}, procs=16),
+        job('variant', 'h_xml', 'variant', cases={Q: 8000, T: 200000}, procs=16),
     ],
     floors={Q: dict(parses=500000, positions_checked=400000, prefix_parses=100000, mutation_parses=30000, roundtrips=8000, rt_bytes_compared=200000, rt_texts_with_leading_whitespace=1000,
                     valid_documents_compared=1000, value_nodes_compared=10000, comments_next_to_text=1000, comments_inside_tags=500, documents_with_processing_instruction=300,
                     deep_parses=48, deep_roundtrips=10, max_nesting_depth=1000, variant_ops=200000, op_copy_assign=10000, op_mutate_shared_element=3000, op_assign_own_child=500,
                     op_element_copy=1000, malloc_hook_calls=1000000, **{'set:error_messages': 7, 'set:rt_char_classes': 11, 'set:rt_byte_values': 255, 'set:toElement_states': 3}),
-            T: dict(parses=10000000, positions_checked=8000000, prefix_parses=1500000, mutation_parses=550000, roundtrips=120000, rt_bytes_compared=5000000, rt_texts_with_leading_whitespace=30000,
-                    valid_documents_compared=15000, value_nodes_compared=200000, comments_next_to_text=20000, comments_inside_tags=10000, documents_with_processing_instruction=5000,
+            T: dict(parses=12000000, positions_checked=10000000, prefix_parses=3000000, mutation_parses=900000, roundtrips=200000, rt_bytes_compared=5000000, rt_texts_with_leading_whitespace=30000,
+                    valid_documents_compared=30000, value_nodes_compared=400000, comments_next_to_text=20000, comments_inside_tags=10000, documents_with_processing_instruction=5000,
                     deep_parses=480, deep_roundtrips=100, max_nesting_depth=1000, variant_ops=5000000, op_copy_assign=250000, op_mutate_shared_element=75000, op_assign_own_child=10000,
                     op_element_copy=25000, malloc_hook_calls=10000000, **{'set:error_messages': 7, 'set:rt_char_classes': 11, 'set:rt_byte_values': 255, 'set:toElement_states': 3})},
 )
